@@ -48,6 +48,18 @@ func replay(sub string, raw json.RawMessage) ([]h.Failure, error) {
 			return nil, err
 		}
 		return checkChars(c), nil
+	case "history":
+		var c histCase
+		if err := json.Unmarshal(raw, &c); err != nil {
+			return nil, err
+		}
+		return checkHistory(c), nil
+	case "pyfmt":
+		var c pyCase
+		if err := json.Unmarshal(raw, &c); err != nil {
+			return nil, err
+		}
+		return checkPyFormat(c), nil
 	case "format":
 		var c fmtCase
 		if err := json.Unmarshal(raw, &c); err != nil {
